@@ -7,7 +7,43 @@
 import CRModel.Frame
 namespace CR.Frame
 
-/-! ### Part A — observation frame -/
+/-! ### Part A — observation frame (of the code as it is: the default variant `Sem.repaired`) -/
+
+/-- what the switches select in the default variant -/
+theorem harmonizeOf_eq : (harmonizeOf : Heap → Nat → List String → List String → Int → Int → Heap × Nat × List String) = harmonize := rfl
+theorem dynByTimeOf_eq (l : Lanelet) (t : Int) : l.dynByTimeOf t = l.dynByTime t := rfl
+theorem mergeRegsOf_eq : (mergeRegsOf : Regs → Regs → Regs × Regs) = mergeRegs := rfl
+theorem pbLook_eq : (pbLook : Option Tbl → Nat → Option Tbl × Res (List Nat)) = goalLanelets := rfl
+
+theorem map_eq_bind_pure {α β : Type} (x : Res α) (f : α → β) : (x >>= fun a => pure (f a)) = f <$> x := by
+  cases x <;> rfl
+
+/-- the repaired occupancy computation hands the trajectory's states back as they were (and computes `createOccs`) -/
+theorem createOccLoop_eq (sh : Int) (ss : List TState) : ∀ i, createOccLoop sh ss i = (ss, createOccs sh ss) := by
+  induction ss with
+  | nil => intro i; rfl
+  | cons s rest ih =>
+    intro i
+    have hsem : instSem.occWritesOrientation = false := rfl
+    simp only [createOccLoop, ih, createOccs, List.mapM_cons, hsem, Bool.false_eq_true, if_false]
+    split
+    · cases h : occOfState sh s with
+      | error e => rfl
+      | ok o => simp only [bind, Except.bind]; rfl
+    · rename_i hattr
+      simp only [occOfState, stateOri, hattr, Bool.false_eq_true, if_false]
+      cases h1 : s.getattr "velocity_y" with
+      | error e => rfl
+      | ok vy =>
+        cases h2 : s.getattr "velocity" with
+        | error e => rfl
+        | ok v =>
+          cases h3 : s.getattr "position" with
+          | error e => rfl
+          | ok p => cases hm : List.mapM (occOfState sh) rest <;> rfl
+
+theorem createOccSet_eq (sh : Int) (ss : List TState) : createOccSet sh ss = (ss, createOccs sh ss) :=
+  createOccLoop_eq sh ss 0
 
 theorem Pred.obs_obs (p : Pred) : p.obs.obs = p.obs := by
   cases p <;> rfl
@@ -18,7 +54,7 @@ theorem Pred.occSet_obs (p : Pred) : p.occSet.1.obs = p.obs := by
   | .setBased _ => rfl
   | .traj _ _ _ (some _) => rfl
   | .traj t1 ss sh none =>
-    simp only [Pred.occSet]
+    simp only [Pred.occSet, createOccSet_eq]
     split <;> rfl
 
 theorem Pred.occAt_obs (p : Pred) (t : Int) : (p.occAt t).1.obs = p.obs := by
@@ -184,7 +220,7 @@ theorem Problem.write_fst (posOnly : Bool) (p : Problem) : (p.write goalLanelets
 
 theorem Problem.write_ok (posOnly : Bool) (p : Problem) : ∃ x, (p.write goalLanelets posOnly).2 = .ok x := by
   obtain ⟨l, hl⟩ := goalLoop_ok posOnly p.tbl p.hasPos 0
-  exact ⟨(p.id, l), by simp only [Problem.write, hl]; rfl⟩
+  exact ⟨⟨p.id, p.init.used, p.goals, l⟩, by simp only [Problem.write, hl]; rfl⟩
 
 theorem problemsWrite_fst (posOnly : Bool) (ps : List Problem) : (problemsWrite goalLanelets posOnly ps).1 = ps := by
   induction ps with
@@ -273,7 +309,7 @@ theorem reachedLoop_frame (r : Nat) (gs : List (List String)) :
 /-- `GoalRegion.is_reached` hands the checked state back as it was: same attributes, same order, same values -/
 theorem isReached_fst (goals : List (List String)) (st : TState) (dec : List (Res Bool)) : (isReached goals st dec).1 = st := by
   have h0 := reachedLoop_frame 0 goals [st] dec 0 (by simp)
-  simp only [isReached, List.getD_eq_getElem?_getD, h0]
+  simp only [isReached, harmonizeOf_eq, List.getD_eq_getElem?_getD, h0]
   rfl
 
 theorem zipDec_map_fst (ss : List TState) (ds : List (List (Res Bool))) : (zipDec ss ds).map (·.1) = ss := by
@@ -464,8 +500,8 @@ theorem step_fst_eq (op : Op) (s : St)
     split
     · rfl
     · rename_i l hl
-      simp only [Lanelet.dynByTime_fst, setRegs_self _ _ _ hl]
-  · simp only [step, mergePaths_fst]
+      simp only [dynByTimeOf_eq, Lanelet.dynByTime_fst, setRegs_self _ _ _ hl]
+  · simp only [step, mergeRegsOf_eq, mergePaths_fst]
 
 /-- **Observation frame**: one read-only operation leaves the observable part of the state as it was. -/
 theorem step_obs (op : Op) (s : St) : (step op s).1.obs = s.obs := by
@@ -495,7 +531,7 @@ theorem step_obs (op : Op) (s : St) : (step op s).1.obs = s.obs := by
   | deepcopy => rfl
   | pickle => rfl
   | writeXml wp => simp only [step, St.write_fst]
-  | writePb wp => simp only [step, St.write_fst]
+  | writePb wp => simp only [step, pbLook_eq, St.write_fst]
   | reached pid loc dec => rw [step_fst_eq _ s (Or.inl ⟨_, _, _, rfl⟩)]
   | goalReached pid src decs => rw [step_fst_eq _ s (Or.inr (Or.inl ⟨_, _, _, rfl⟩))]
   | eq tgt => rfl
@@ -531,7 +567,7 @@ theorem Pred.occSet_inv (p : Pred) (h : p.Inv) : p.occSet.1.Inv := by
   | .setBased _, _ => trivial
   | .traj _ _ _ (some _), h => exact h
   | .traj t1 ss sh none, _ =>
-    simp only [Pred.occSet]
+    simp only [Pred.occSet, createOccSet_eq]
     split
     · rename_i c hc
       exact hc
@@ -709,7 +745,7 @@ theorem step_inv (op : Op) (s : St) (h : s.Inv) : (step op s).1.Inv := by
   | deepcopy => exact ⟨h.obstacles, Or.inr rfl, h.lights⟩
   | pickle => exact ⟨h.obstacles, h.net, h.lights⟩
   | writeXml wp => simp only [step, St.write_fst]; exact h
-  | writePb wp => simp only [step, St.write_fst]; exact h
+  | writePb wp => simp only [step, pbLook_eq, St.write_fst]; exact h
   | reached pid loc dec => rw [step_fst_eq _ s (Or.inl ⟨_, _, _, rfl⟩)]; exact h
   | goalReached pid src decs => rw [step_fst_eq _ s (Or.inr (Or.inl ⟨_, _, _, rfl⟩))]; exact h
   | eq tgt => exact h
@@ -742,7 +778,7 @@ theorem step_index (op : Op) (s : St) (h : s.net.index = some s.net.lanelets) :
   | statesAt t => simp only [step]; split <;> exact h
   | deepcopy => rfl
   | writeXml wp => simp only [step, St.write_fst]; exact h
-  | writePb wp => simp only [step, St.write_fst]; exact h
+  | writePb wp => simp only [step, pbLook_eq, St.write_fst]; exact h
   | reached pid loc dec => rw [step_fst_eq _ s (Or.inl ⟨_, _, _, rfl⟩)]; exact h
   | goalReached pid src decs => rw [step_fst_eq _ s (Or.inr (Or.inl ⟨_, _, _, rfl⟩))]; exact h
   | dynByTime lid t => rw [step_fst_eq _ s (Or.inr (Or.inr (Or.inr (Or.inr (Or.inr (Or.inr (Or.inl ⟨_, _, rfl⟩)))))))]; exact h
@@ -777,8 +813,8 @@ theorem Pred.occSet_snd (p : Pred) (h : p.Inv) : p.occSet.2 = p.obs.occSet.2 := 
   | .setBased _, _ => rfl
   | .traj _ _ _ none, _ => rfl
   | .traj t1 ss sh (some c), h =>
-    have h' : createOccSet sh ss = .ok c := h
-    simp only [Pred.obs, Pred.occSet, h']
+    have h' : createOccs sh ss = .ok c := h
+    simp only [Pred.obs, Pred.occSet, createOccSet_eq, h']
 
 theorem Pred.occAt_snd (p : Pred) (t : Int) (h : p.Inv) : (p.occAt t).2 = (p.obs.occAt t).2 := by
   simp only [Pred.occAt, Pred.occSet_snd p h]
@@ -929,7 +965,20 @@ theorem St.write_snd_congr (look : Option Tbl → Nat → Option Tbl × Res (Lis
   have e2 : s.problems = s'.problems := by
     have : s.obs.problems = s'.obs.problems := congrArg St.problems e
     exact this
-  simp only [St.write, e1, e2]
+  have e3 : s.net.lanelets = s'.net.lanelets := congrArg (fun x => x.net.lanelets) e
+  have e4 : s.extra = s'.extra := by
+    have : s.obs.extra = s'.obs.extra := congrArg St.extra e
+    exact this
+  have e5 : s.lights.map Light.file = s'.lights.map Light.file := by
+    have h := congrArg (fun x => x.lights.map Light.file) e
+    have hm : ∀ ls : List Light, (ls.map Light.obs).map Light.file = ls.map Light.file := by
+      intro ls
+      rw [List.map_map]
+      apply List.map_congr_left
+      intro l _
+      rfl
+    simpa only [St.obs, hm] using h
+  simp only [St.write, e1, e2, e3, e4, e5]
   cases wp <;> rfl
 
 theorem St.obs_obs (s : St) : s.obs.obs = s.obs := by
@@ -1128,7 +1177,7 @@ theorem step_snd_norm (op : Op) (s : St) (h : s.Inv) :
     simp only [step]
     rw [St.write_snd_congr goalLanelets true wp s s.norm (St.norm_obs s).symm]
   | writePb wp =>
-    simp only [step]
+    simp only [step, pbLook_eq]
     rw [St.write_snd_congr goalLanelets false wp s s.norm (St.norm_obs s).symm]
   | reached pid loc dec =>
     simp only [step, norm_problems, norm_obstacles]
@@ -1191,5 +1240,93 @@ theorem answer_congr (op : Op) (s s' : St) (h : s.Inv) (h' : s'.Inv) (e : s.obs 
     (hi : s.net.index.isSome = s'.net.index.isSome) :
     (step op s).2.map Out.obs = (step op s').2.map Out.obs := by
   rw [step_snd_norm op s h, step_snd_norm op s' h', St.norm_congr s s' e hi]
+
+/-! ### Part D — the other variants of the code DO change the observable state (families of witnesses) -/
+
+/-- the heading-carrying object of state `s` standing at index `i` -/
+def withOri (s : TState) (i : Nat) : TState := { s with attrs := s.attrs ++ [("orientation", some (-1 - (i : Int)))] }
+
+theorem withOri_ne (s : TState) (i : Nat) : withOri s i ≠ s := by
+  intro h
+  have := congrArg (fun x => x.attrs.length) h
+  simp [withOri] at this
+
+/-- legacy `_create_occupancy_set`: a first state without `orientation` whose heading can be computed is replaced by the
+    object carrying the heading, whatever comes after it and whether or not the computation succeeds in the end -/
+theorem createOccLoop_legacy_head (sh : Int) (st : TState) (ss : List TState) (i : Nat) (ori : Ori)
+    (h1 : st.hasattr "orientation" = false) (h2 : stateOri st = .ok ori) :
+    ∃ tl, (createOccLoop (sem := Sem.legacy) sh (st :: ss) i).1 = withOri st i :: tl := by
+  simp only [createOccLoop, h1, h2, Bool.false_eq_true, if_false, if_true, withOri]
+  split
+  · exact ⟨_, rfl⟩
+  · exact ⟨_, rfl⟩
+
+theorem Pred.occSet_legacy_head (t1 : Int) (sh : Int) (st : TState) (ss : List TState) (ori : Ori)
+    (h1 : st.hasattr "orientation" = false) (h2 : stateOri st = .ok ori) :
+    ∃ tl c, (Pred.occSet (sem := Sem.legacy) (.traj t1 (st :: ss) sh none)).1 = .traj t1 (withOri st 0 :: tl) sh c := by
+  obtain ⟨tl, htl⟩ := createOccLoop_legacy_head sh st ss 0 ori h1 h2
+  simp only [Pred.occSet, createOccSet]
+  split
+  · exact ⟨tl, _, by rw [htl]⟩
+  · exact ⟨tl, _, by rw [htl]⟩
+
+/-- legacy protobuf lookup on a `defaultdict` table: it never fails, the table only grows, and it grows as soon as one goal
+    index is missing -/
+theorem goalLoopOld_dflt (posOnly : Bool) : ∀ (goals : List Bool) (items : List (Nat × List Nat)) (i : Nat),
+    ∃ items', (goalLoop goalLaneletsOld posOnly (some ⟨.dflt, items⟩) goals i).1 = some ⟨.dflt, items'⟩ ∧
+      items.length ≤ items'.length ∧
+      ((∃ k, k < goals.length ∧ items.lookup (i + k) = none) → items.length < items'.length) := by
+  intro goals
+  induction goals with
+  | nil => intro items i; exact ⟨items, rfl, Nat.le_refl _, fun ⟨k, hk, _⟩ => absurd hk (by simp)⟩
+  | cons g rest ih =>
+    intro items i
+    cases hl : items.lookup i with
+    | some v =>
+      obtain ⟨items', h1, h2, h3⟩ := ih items (i + 1)
+      refine ⟨items', ?_, h2, ?_⟩
+      · simp only [goalLoop, goalLaneletsOld, Tbl.getItem, hl, h1]
+      · rintro ⟨k, hk, hnone⟩
+        cases k with
+        | zero => simp [hl] at hnone
+        | succ k =>
+          apply h3
+          exact ⟨k, by simpa using hk, by rw [show i + 1 + k = i + (k + 1) by omega]; exact hnone⟩
+    | none =>
+      obtain ⟨items', h1, h2, _⟩ := ih (items ++ [(i, [])]) (i + 1)
+      refine ⟨items', ?_, ?_, ?_⟩
+      · simp only [goalLoop, goalLaneletsOld, Tbl.getItem, hl, h1]
+      · simp only [List.length_append, List.length_cons, List.length_nil] at h2; omega
+      · intro _
+        simp only [List.length_append, List.length_cons, List.length_nil] at h2; omega
+
+/-- legacy protobuf lookup on a plain `dict` with a missing goal index: KeyError, table untouched -/
+theorem goalLoopOld_plain (posOnly : Bool) : ∀ (goals : List Bool) (items : List (Nat × List Nat)) (i : Nat),
+    (∃ k, k < goals.length ∧ items.lookup (i + k) = none) →
+    (goalLoop goalLaneletsOld posOnly (some ⟨.plain, items⟩) goals i).2 = .error .key ∧
+    (goalLoop goalLaneletsOld posOnly (some ⟨.plain, items⟩) goals i).1 = some ⟨.plain, items⟩ := by
+  intro goals
+  induction goals with
+  | nil => intro items i ⟨k, hk, _⟩; exact absurd hk (by simp)
+  | cons g rest ih =>
+    intro items i ⟨k, hk, hnone⟩
+    cases hl : items.lookup i with
+    | none => constructor <;> simp only [goalLoop, goalLaneletsOld, Tbl.getItem, hl]
+    | some v =>
+      cases k with
+      | zero => simp [hl] at hnone
+      | succ k =>
+        have := ih items (i + 1) ⟨k, by simpa using hk, by rw [show i + 1 + k = i + (k + 1) by omega]; exact hnone⟩
+        constructor
+        · simp only [goalLoop, goalLaneletsOld, Tbl.getItem, hl, this.1]; rfl
+        · simp only [goalLoop, goalLaneletsOld, Tbl.getItem, hl, this.2]
+
+theorem unionIds_length (a b : List Nat) (x : Nat) (hx : x ∈ b) (hn : x ∉ a) : a.length < (unionIds a b).length := by
+  have : x ∈ b.filter (fun y => !a.contains y) := by
+    simp only [List.mem_filter, hx, true_and, Bool.not_eq_true', List.contains_eq_mem, decide_eq_false_iff_not]
+    exact hn
+  have hpos : 0 < (b.filter (fun y => !a.contains y)).length := List.length_pos_of_mem this
+  simp only [unionIds, List.length_append]
+  omega
 
 end CR.Frame
